@@ -388,6 +388,10 @@ def generate(prop: str, seed: int, tier: str = "quick", fault_free: bool = False
         if k == "derive":
             ops.append({"op": "derive", "parent": w.randrange(64), "lam": w.randrange(64),
                         "mode": _wchoice(w, modes)})
+            if "small_stack" in faults and w.random() < 0.12:
+                # resource fault inside a *derive*: few frames left, so the library may overflow
+                # half-way through capturing / type-following / copying
+                ops[-1]["stack"] = w.choice([12, 18, 25, 35, 50, 70, 100])
             if big and w.random() < 0.08:  # a deep chain: derive again and again from the newest
                 for _ in range(w.randint(10, 30)):
                     ops.append({"op": "derive", "parent": -1, "lam": w.randrange(64),
@@ -951,8 +955,17 @@ class Forest:
     def builder(self, fn):
         "Run a builder op; no executor may start inside it (C12 oracle 1)."
         n0 = self.exec_starts
+        extra, self.derive_stack = getattr(self, "derive_stack", None), None
         try:
+            if extra:  # only the first builder call of the op (not its twin) runs in the window
+                self.stat("fault_small_stack_derive")
+                with small_stack(extra):
+                    return fn(), None
             return fn(), None
+        except RecursionError as ex:
+            if extra:
+                self.stat("derive_overflows")
+            return None, ex
         except Exception as ex:  # a failed derive is an operation of the history
             return None, ex
         finally:
@@ -973,6 +986,13 @@ class Forest:
             raise Violation("C12/root", {"what": what, "wrong_root": True})
 
     def op_derive(self, op):
+        self.derive_stack = op.get("stack")
+        try:
+            return self._op_derive(op)
+        finally:
+            self.derive_stack = None
+
+    def _op_derive(self, op):
         parent = self.ref(op, "parent")
         mode = op["mode"]
         if mode == "site":
@@ -1035,7 +1055,12 @@ class Forest:
             rf = ref_fn()
             le.reset_budget()
             refs = [le.outcome(rf, s) for s in SAMPLES]
+        overflow_ok = bool(getattr(self, "derive_stack", None))
         new, ex = self.builder(lambda: site_fn(parent.stream))
+        if overflow_ok and isinstance(ex, RecursionError):
+            self.ev("site_overflow", k)
+            self.last_op = "failed-derive"
+            return
         self.site_calls[k] = self.site_calls.get(k, 0) + 1
         if self.site_calls[k] > 1 and self.rebinds_since.get(k):
             self.stat("probe_site_reinvoked_after_rebinding")
